@@ -145,7 +145,7 @@ def structured_scalars(rng, full256=False, extra_random=0):
         s.add(((1 << 64) - 1) << (64 * w) & ((1 << top) - 1))
     # scalars one of whose binary prefixes is congruent to 0 or +-1 mod r: a left-to-right ladder then meets the
     # identity / the base point / its inverse in the accumulator (equal-point and inverse-point additions)
-    for pre in (R - 1, R, R + 1, (R - 1) // 2, (R + 1) // 2):
+    for pre in (R - 2, R - 1, R, R + 1, R + 2, R + 3, (R - 1) // 2, (R + 1) // 2, (R + 3) // 2):
         for j in (1, 2, 3):
             for t in range(1 << j):
                 s.add((pre << j) + t)
